@@ -574,7 +574,8 @@ fn check_c08(cases: &[Case], results: &[Option<RunResult>]) -> Vec<Violation> {
         let list: String = lines[p..].concat();
         let mut exp = String::new();
         for (k, h) in links.iter().enumerate() {
-            exp.push_str(&format!("[{}]: {}", k + 1, h));
+            // a line feed inside a target is shown as a space
+            exp.push_str(&format!("[{}]: {}", k + 1, h.replace('\n', " ")));
         }
         if list != exp {
             v.push(viol(i, "footnote list does not match the link targets", format!("{:?} vs {:?}", list.chars().take(120).collect::<String>(), exp.chars().take(120).collect::<String>()), known));
@@ -859,7 +860,40 @@ fn check_c09(cases: &[Case], results: &[Option<RunResult>]) -> Vec<Violation> {
                 }
             }
         }
+        // the display width of the preformatted source line each token sits on: a piece may carry
+        // the continuation flag only if its source line does not fit beside the line's prefix
+        let has_table_c09 = has_element(&dom, &["table"]);
+        let mut pre_line_width: HashMap<String, usize> = HashMap::new();
+        walk(&dom, &mut |n, _| {
+            if n.is("pre") {
+                fn all_text(n: &DNode, o: &mut String) {
+                    match n {
+                        DNode::Text(t) => o.push_str(t),
+                        DNode::El { kids, .. } => kids.iter().for_each(|k| all_text(k, o)),
+                        _ => {}
+                    }
+                }
+                let mut t = String::new();
+                all_text(n, &mut t);
+                for line in t.split('\n') {
+                    let w = str_width(&expand_tabs(line));
+                    for tok in line.split_whitespace() {
+                        pre_line_width.insert(tok.to_string(), w);
+                    }
+                }
+            }
+        });
         'outer: for l in lines {
+            let has_pre = |t: &Vec<Ann>| t.iter().any(|a| matches!(a, Ann::Pre(_)));
+            let mut prefix_w = 0usize;
+            for e in l {
+                if let Elem::Str(s, tag) = e {
+                    if has_pre(tag) {
+                        break;
+                    }
+                    prefix_w += str_width(s);
+                }
+            }
             for e in l {
                 if let Elem::Str(s, tag) = e {
                     for tok in s.split_whitespace() {
@@ -871,7 +905,16 @@ fn check_c09(cases: &[Case], results: &[Option<RunResult>]) -> Vec<Violation> {
                             let mut exp2 = exp.clone();
                             let mut got = tag.clone();
                             // a continuation piece of a preformatted line carries Pre(true)
-                            if let (Some(Ann::Pre(_)), Some(Ann::Pre(_))) = (exp2.last(), got.last()) {
+                            if let (Some(Ann::Pre(_)), Some(Ann::Pre(flag))) = (exp2.last(), got.last()) {
+                                // (inside table cells the available width is the column's, not known here)
+                                if *flag && !has_table_c09 {
+                                    if let Some(lw) = pre_line_width.get(&tok) {
+                                        if *lw + prefix_w <= c.spec.width {
+                                            v.push(viol(i, "continuation flag on a piece of a preformatted line that fits", format!("token {:?}: source line is {} columns, prefix {}, width {}", tok, lw, prefix_w, c.spec.width), None));
+                                            break 'outer;
+                                        }
+                                    }
+                                }
                                 exp2.pop();
                                 got.pop();
                             }
